@@ -395,7 +395,13 @@ def semantic_case(rng, sc, i, pkg, gen_man):
         if pk is not p:
             files[os.path.join(d, "_package.yml")] = f"namespace: {pk.namespace}\n"
     man = "namespace: Fz\nimports:\n  - ../pkg_FzImp\n" + (gen_man.split("\n", 1)[1] if rng.random() < 0.35 else "")
-    c = Case("semantic:" + kind, os.path.join(root, "pkg"), {}, man, generate="outputDir" in man)
+    gen = "outputDir" in man
+    if kind == "deep" and gen and len(files.get(os.path.join("pkg", "model.yml"), "")) > 6000:
+        # the generated C++ grows with the cube of the nesting depth of one type expression (60 MB at 200 levels, 100 s and
+        # 0.5 GB at 400): time proportional to output is not a hang. The deepest types are validated only.
+        gen = False
+        man = "namespace: Fz\nimports:\n  - ../pkg_FzImp\n"
+    c = Case("semantic:" + kind, os.path.join(root, "pkg"), {}, man, generate=gen)
     c.files = {os.path.relpath(os.path.join(root, k), os.path.join(root, "pkg")): v for k, v in files.items()}
     return c
 
